@@ -16,6 +16,15 @@ CLAIMS = {
  "C13": ("abstract interpretation of the repo's AST over a symbolic element-provenance domain (round trip == identity) + AST rules PYTREE (flatten fields cover constructor parameters) and SAVELOAD (matching serialise pair)",
          "Decides for every swept configuration (ordered type signatures k<=3, channels 1-4, D=1..3, non-square extents, 0-3 leading axes, every split axis / expansion size / device count, chains of three operations) that each inverse pair composes to the identity as exact element provenance with types, D and boundary flags preserved -- i.e. for all array values.",
          "Trusted: NumPy/JAX re-layout semantics as modelled in ginverif.arr; JAX sorts dict keys in pytrees; equinox (de)serialisation is only checked to be the matching pair on binary handles -- bit-for-bit save/load is not decided statically.", "3/C13"),
+ "C15": ("abstract interpretation of the repo's AST over a symbolic element-provenance domain (windowed blocks == fields named by the statement)",
+         "Decides, for every (T,p,f,dt,s,downsample,signature,constants,batched) in the swept box, that the window count is T-s-(p+f-1)dt, that every element of every input/target block is exactly the field at time s+w+j*dt resp. s+w+(p+j)*dt per channel in time order, that constants reach inputs only, that down-sampling is the 2^D patch mean on both, and that the batched variant is the trajectory-major stack -- as exact provenance, hence for all field values.",
+         "Trusted: arange/broadcast/integer-array-indexing and conv_general_dilated semantics as modelled. The box is finite (thorough: T<=12 for the index families; T in {5,6,8} for the blocks); the index formulas are not proved for symbolic T.", "3/C15"),
+ "C16": ("abstract interpretation of the repo's AST with the model as an uninterpreted function symbol (rollout == sliding-window recurrence)",
+         "Decides for rollout lengths 1-4, 1-4 past steps and signatures with dynamic-only, mixed and constant-only types that the n-step rollout equals n explicit applications of an arbitrary model under the stated window update (drop oldest, append prediction as newest, constants unchanged at their position, input type order kept). The model is an uninterpreted symbol of its entire input, so this holds for every model.",
+         "Trusted: re-layout semantics as modelled; future_steps != 1 is rejected by the code and outside the statement.", "3/C16"),
+ "C17": ("abstract interpretation of the repo's AST with the shuffling permutation as an opaque symbol vector (aligned-slice oracle) + AST reaching rule",
+         "Decides for L in 4..9, every B<=L incl. non-divisible, 1-3 co-batched multi-images with different type sets, device counts and key None/opaque that there are floor(L/B) batches and that every batch of every multi-image and type is rows idx[iB:(i+1)B] of ONE shared index vector regrouped (n_dev,B/n_dev); disjointness of slices of one bijection gives 'at most once per epoch'.",
+         "Trusted: jax.random.permutation returns a bijection of range(L); jax.devices() length.", "3/C17"),
 }
 
 NA_REASON = "check not built yet in this session (build in progress); see DESIGN.md section 3 for the planned static rule"
